@@ -38,7 +38,7 @@ func checkC06(r *Run) {
 	r.Rule("R7", "every arm of the inside-tag token switch leaves the cursor exactly behind its token", 10)
 
 	r.Rule("R8", "'!' negates the uniform truthiness predicate of its operand", 1)
-	bangArmRule(r, "R8")
+	prefixBangRuleSSA(r, "R8")
 	c06Precedence(r)
 	c06Pratt(r)
 	c06TablesSSA(r)
